@@ -332,6 +332,10 @@ func c16RunFlights(t *testing.T, in c16Input) []c16FlightObs {
 		svc.mu.Lock()
 		svc.logging = true
 		svc.mu.Unlock()
+		// watchdog: a caller the implementation never releases is cancelled after 10^7 ms (far beyond
+		// every instant of the scenario) so that the run ends and the late return is recorded
+		wctx, wcancel := context.WithCancel(context.Background())
+		wd := time.AfterFunc(10_000_000*time.Millisecond, wcancel)
 		var wg sync.WaitGroup
 		for fi, f := range in.Flights {
 			obs[fi].Name = f.Name
@@ -341,7 +345,7 @@ func c16RunFlights(t *testing.T, in c16Input) []c16FlightObs {
 				go func() {
 					defer wg.Done()
 					time.Sleep(time.Duration(c.Arr) * time.Millisecond)
-					cctx := context.WithValue(context.Background(), c16Key{}, ci)
+					cctx := context.WithValue(wctx, c16Key{}, ci)
 					if c.Dl > 0 {
 						var cf context.CancelFunc
 						cctx, cf = context.WithDeadline(cctx, svc.t0.Add(time.Duration(c.Dl)*time.Millisecond))
@@ -381,6 +385,8 @@ func c16RunFlights(t *testing.T, in c16Input) []c16FlightObs {
 			}
 		}
 		wg.Wait()
+		wd.Stop()
+		wcancel()
 		synctest.Wait()
 		for fi, f := range in.Flights {
 			func() {
